@@ -177,7 +177,9 @@ func TestC13(t *testing.T) {
 	r.Rule = "every valid packet of rtr.Cases (shape x position x interfaces x arrival kind) as EPIC-HP, role of the router = hop it " +
 		"validates last (penultimate N-2 / last N-1 / other) x {single, multi BR} x 2 keys x source {IPv4, IPv6} x extension headers " +
 		"x first-info-field timestamp {same, different from the current segment's}; at penultimate/last: packet timestamps at " +
-		"-10s, -3s-tick, -3s, -3s+tick, ~0, +1s-tick, +1s, +1s+tick, +2s, +10s (exact under the bubble clock) with valid HVF; the " +
+		"-10s, -3s-tick, -3s, -3s+tick, ~0, +1s-tick, +1s, +1s+tick, +2s, +10s (exact under the bubble clock) with valid HVF; " +
+		"sub-second positions: both bounds (sender+3s, sender-1s) falling 0, 21us, ~100ms, ~500ms, ~999ms, 999.999ms into their wall-clock " +
+		"second x now = bound -1s, -1ms, -1ns, 0, +1ns, +1ms, +999ms, +1s (thorough: 11 x 17), clock set to the nanosecond; the " +
 		"extreme 32-bit packet timestamps 0, 1, 0x7fffffff, 0x80000000, 0xfffffffe, 0xffffffff x first-info-field ages {0,1,2,3,5 s and " +
 		"the age that makes that packet fresh -5,-2,0,+1,+2,+5 s}, plus whole packets built on segments 0 s and 2 s old; 8 HVF " +
 		"bit flips, HVF over each wrong MAC input (18 deviations), P/L swapped, other field garbage; at other hops: stale/future " +
@@ -214,6 +216,57 @@ func TestC13(t *testing.T) {
 				r.HarnessError("time alphabet %s: offset %v, want %v", tm.name, d, w)
 			}
 		}
+		// Sub-second positions (phases >= 2). The freshness bounds are instants with nanosecond resolution (the sender time
+		// is first info timestamp + k x 21 us; the router's clock has nanoseconds), so the verdict must not depend on
+		// where inside a wall-clock second a bound or the current time falls. For each bound B in {end of lifetime =
+		// sender + 3 s, future bound = sender - 1 s}, each sub-second part of the sender time (k mod 47619.05 ticks:
+		// 0, 21 us, ~100 ms, ~500 ms, ~999 ms, 999.999 ms; more in thorough) and each offset d, the bubble clock is
+		// moved to now = B + d exactly and every penultimate / last case is evaluated with a packet of sender time
+		// infoTS + (21 s x M + frac): M grows by one per position so the positions are visited in clock order.
+		type subPos struct {
+			bound string
+			at    time.Time // the clock reading of this position
+			delta time.Duration
+		}
+		var subs []subPos
+		{
+			fracs := []int64{0, 1, 4762, 23810, 47571, 47619}
+			offs := []time.Duration{-time.Second, -time.Millisecond, -1, 0, 1, time.Millisecond, 999 * time.Millisecond, time.Second}
+			if mc.Thorough() {
+				fracs = []int64{0, 1, 2, 48, 4762, 11905, 23810, 35714, 47571, 47618, 47619}
+				offs = []time.Duration{-2 * time.Second, -time.Second, -500 * time.Millisecond, -time.Millisecond, -c13Tick, -time.Microsecond, -1, 0, 1,
+					time.Microsecond, c13Tick, time.Millisecond, 500 * time.Millisecond, 999 * time.Millisecond, time.Second - 1, time.Second, 2 * time.Second}
+			}
+			m := int64(6)
+			for _, b := range []struct {
+				name string
+				off  time.Duration
+			}{{"end-of-lifetime", 3 * time.Second}, {"future-bound", -time.Second}} {
+				for _, f := range fracs {
+					for _, d := range offs {
+						k := m*1000000 + f // 10^6 ticks = 21 s exactly
+						sender := time.Unix(int64(infoTS), 0).Add(time.Duration(k) * c13Tick)
+						at := sender.Add(b.off).Add(d)
+						ph := 2 + len(subs)
+						subs = append(subs, subPos{b.name, at, sender.Sub(at)})
+						// freshness class from the exact offset sender - now (same reading of the statement as above)
+						dl := sender.Sub(at)
+						fresh := 0
+						switch {
+						case dl == -3*time.Second || dl == time.Second:
+							fresh = -1
+						case dl > -3*time.Second && dl < time.Second:
+							fresh = 1
+						case dl > time.Second && dl <= 3*time.Second:
+							fresh = -2
+						}
+						times = append(times, c13Time{name: fmt.Sprintf("/sub-second:%s-falls-%dticks(%v)-into-its-second/now=bound%+dns", b.name, f,
+							(time.Duration(f) * c13Tick).Round(time.Microsecond), int64(d)), k: k, fresh: fresh, phase: ph})
+						m++
+					}
+				}
+			}
+		}
 		freshK := int64(4761904)
 		type rt2 struct {
 			a    *rtr.Router
@@ -241,11 +294,24 @@ func TestC13(t *testing.T) {
 			return verdict{res.Fast.Disp == router.VerifForward, res, raw, lay}
 		}
 
-		for phase := 0; phase < 2; phase++ {
-			if phase == 0 {
+		type caseKey struct {
+			ci int
+			ts uint32
+		}
+		caseCache := map[caseKey][]rtr.Case{}
+		for ci, cf := range cfgs {
+			cfg := rtr.StdCfg(cf.multi, cf.key)
+			caseCache[caseKey{ci, infoTS}] = rtr.Cases(&cfg, cf.key, infoTS, 63)
+		}
+		for phase := 0; phase < 2+len(subs); phase++ {
+			if phase < 2 {
 				time.Sleep(4 * time.Microsecond)
 			} else {
-				time.Sleep(4 * time.Microsecond)
+				sp := subs[phase-2]
+				time.Sleep(sp.at.Sub(time.Now()))
+				if !time.Now().Equal(sp.at) {
+					r.HarnessError("sub-second position %d: clock at %v, want %v", phase, time.Now(), sp.at)
+				}
 			}
 			mc.ParallelFor(len(cfgs), func(ci int) {
 				cf := cfgs[ci]
@@ -262,7 +328,10 @@ func TestC13(t *testing.T) {
 					sets = append(sets, caseSet{baseSec, true}, caseSet{baseSec - 2, true})
 				}
 				for _, set := range sets {
-					cases := rtr.Cases(&cfg, cf.key, set.ts, 63)
+					cases, cached := caseCache[caseKey{ci, set.ts}]
+					if !cached {
+						cases = rtr.Cases(&cfg, cf.key, set.ts, 63)
+					}
 					for cidx := range cases {
 						c := &cases[cidx]
 						n := c.Pkt.NumHops()
@@ -461,6 +530,10 @@ func TestC13(t *testing.T) {
 										case -2:
 											r.Outcome(fmt.Sprintf("future-beyond-skew-within-3s-accepted=%v", acc))
 										}
+										if phase >= 2 {
+											r.Outcome(fmt.Sprintf("sub-second:%s/%s/accepted=%v", subs[phase-2].bound,
+												map[int]string{1: "fresh", 0: "not-fresh", -1: "exactly-on-bound", -2: "future-beyond-skew-within-3s"}[fresh], acc))
+										}
 									}
 									if !set.extremeOnly {
 										for _, tm := range times {
@@ -605,6 +678,7 @@ func TestC13(t *testing.T) {
 		}
 		r.Extra["cases_by_role_multi_config"] = nRole
 		r.Extra["hvf_deviations"] = len(devs) + 10
+		r.Extra["sub_second_clock_positions"] = len(subs)
 		for i := 0; i < len(cs); i += len(cs)/5 + 1 {
 			cc := cs[i]
 			p := cc.WithEPIC(rtr.KeyA, uint32(freshK-1))
@@ -614,6 +688,7 @@ func TestC13(t *testing.T) {
 	})
 	r.Assumptions = []string{
 		"fresh = sender time within [now - (2 s lifetime + 1 s skew), now + 1 s skew] (pkg/experimental/epic doc); the two exact bound instants accept either verdict; sender times in (now+1s, now+3s] are recorded, not judged (the statement's wording would tolerate them); beyond +3 s / -3 s acceptance is a violation",
+		"the bounds are instants with nanosecond resolution: 1 ns before the end of the lifetime the packet must be accepted, 1 ns after it rejected, wherever in a wall-clock second the bound or the current time falls",
 		"'penultimate hop' = the AS whose hop field has index NumHops-2; a router is judged when it is the last router of that AS to handle the packet (own egress interface), otherwise the pair ingress router + real sibling egress router is judged",
 		"HVFs are concrete AES-CBC-MAC values under 2 concrete keys (clean-room implementation), not symbolic",
 		"a valid fresh EPIC packet must be forwarded with exactly the bytes of the embedded SCION processing (liveness side of the 'only if')",
